@@ -324,6 +324,9 @@ def _nonconv(o) -> bool:
     return (not o.ok) and o.exc_type == "RuntimeError" and "did not converge" in o.exc_msg
 
 
+simplifications = common.simplifications
+
+
 def nontrivial(brief: dict) -> bool:
     s = brief["stats"]
     return s.get("restarts", 0) > 0 and s.get("queries_after_restart", 0) > 0
